@@ -333,6 +333,9 @@ pub struct Interpreter {
 
     /// Cancelled order IDs
     pub(crate) cancelled_orders: Vec<crate::OrderId>,
+    /// Orders (and ids handed out for host-made order promises) that were issued by the
+    /// current run and not yet answered: the only ids a script can still cancel
+    pub(crate) open_orders: FxHashSet<crate::OrderId>,
 
     /// Suspended VM state waiting for order response from host
     pub(crate) suspended_for_order: Option<bytecode_vm::VmOrderSuspension>,
@@ -505,6 +508,7 @@ impl Interpreter {
             pending_orders: Vec::new(),
             order_responses: FxHashMap::default(),
             cancelled_orders: Vec::new(),
+            open_orders: FxHashSet::default(),
             suspended_for_order: None,
             // Async context management
             wait_graph: WaitGraph::new(),
@@ -1165,6 +1169,8 @@ impl Interpreter {
             // 1. Check for order suspension with fulfilled response
             if let Some(order_suspension) = self.suspended_for_order.take() {
                 if let Some(result) = self.order_responses.remove(&order_suspension.order_id) {
+                    // Answered: the order is closed
+                    self.open_orders.remove(&order_suspension.order_id);
                     match result {
                         Ok(runtime_value) => {
                             let value = runtime_value.value().clone();
@@ -1429,6 +1435,7 @@ impl Interpreter {
         self.pending_orders.clear();
         self.cancelled_orders.clear();
         self.order_responses.clear();
+        self.open_orders.clear();
         self.active_module_env = None;
         self.active_module_path = None;
     }
